@@ -47,6 +47,14 @@ def cases(rng, tier):
                 Logged.log.append(rhs.reshape(-1, Logged.ncols).clone())
             return super()._matmul(rhs)
 
+    class LoggedT(DenseLinearOperator):
+        log = None
+
+        def _t_matmul(self, rhs):
+            if LoggedT.log is not None:
+                LoggedT.log.append(rhs.reshape(-1, LoggedT.ncols).clone())
+            return super()._t_matmul(rhs)
+
     UM = cat._user_minimal_class()
     for rep in range(reps):
         dt = dts[rep % 2]
@@ -78,6 +86,77 @@ def cases(rng, tier):
                 Logged.log = None
             return " | ".join(M(s) for s in states)
         out.append((f"C01/corr/kron[P={nf}|{shp}]/per-factor-states", f"krontrace {M(X)} {fw}", trace))
+        def ttrace(fs=fs, Y=Y, c=c):
+            LoggedT.log = []
+            LoggedT.ncols = c
+            try:
+                res = KroneckerProductLinearOperator(*[LoggedT(f.clone()) for f in fs])._t_matmul(Y.clone())
+                states = list(LoggedT.log) + [res]
+            finally:
+                LoggedT.log = None
+            return " | ".join(M(s) for s in states)
+        out.append((f"C01/corr/kron[P={nf}|{shp}]/_t_matmul-per-factor-states", f"kronttrace {M(Y)} {fw}", ttrace))
+        # ---- batch broadcasting: shapes and which operand members an output member reads
+        def rshape(maxlen=3):
+            return [rng.choice([1, 1, 2, 3]) for _ in range(rng.randint(0, maxlen))]
+        sa, sb = rshape(), rshape()
+        if rng.random() < 0.6:  # make them compatible most of the time
+            out_ = [rng.choice([2, 3]) for _ in range(max(len(sa), len(sb)))]
+            sa = [o if rng.random() < 0.6 else 1 for o in out_[len(out_) - len(sa):]]
+            sb = [o if rng.random() < 0.6 else 1 for o in out_[len(out_) - len(sb):]]
+        fs_ = lambda l: ",".join(map(str, l)) if l else "-"
+
+        def bshape(sa=sa, sb=sb):
+            try:
+                return fs_(list(torch.broadcast_shapes(tuple(sa), tuple(sb))))
+            except RuntimeError:
+                return "error"
+        out.append((f"C01/corr/broadcast[ra={len(sa)}|rb={len(sb)}]/broadcast_shapes", f"bshape {fs_(sa)} {fs_(sb)}", bshape))
+        mm, nn_, pp = rng.randint(1, 3), rng.randint(1, 3), rng.randint(1, 3)
+        n2 = nn_ if rng.random() < 0.8 else nn_ + 1
+
+        def mshape(sa=sa, sb=sb, mm=mm, nn_=nn_, n2=n2, pp=pp):
+            from linear_operator.utils.broadcasting import _matmul_broadcast_shape
+            try:
+                return fs_(list(_matmul_broadcast_shape(torch.Size((*sa, mm, nn_)), torch.Size((*sb, n2, pp)))))
+            except RuntimeError:
+                return "error"
+        out.append((f"C01/corr/broadcast[ra={len(sa)}|rb={len(sb)}]/_matmul_broadcast_shape", f"mshape {fs_(sa)} {mm} {nn_} {fs_(sb)} {n2} {pp}", mshape))
+
+        def mshapevec(sa=sa, mm=mm, nn_=nn_, n2=n2):
+            from linear_operator.utils.broadcasting import _matmul_broadcast_shape
+            try:
+                return fs_(list(_matmul_broadcast_shape(torch.Size((*sa, mm, nn_)), torch.Size((n2,)))))
+            except RuntimeError:
+                return "error"
+        out.append((f"C01/corr/broadcast[ra={len(sa)}]/_matmul_broadcast_shape-1D", f"mshapevec {fs_(sa)} {mm} {nn_} {n2}", mshapevec))
+        try:
+            ob = list(torch.broadcast_shapes(tuple(sa), tuple(sb)))
+        except RuntimeError:
+            ob = None
+        if ob is not None:
+            # output member idx of (Kronecker operator with batch sa) @ (rhs with batch sb) equals the dense product of
+            # the operand members the MODEL's `restrict` names
+            idx = [rng.randrange(o) for o in ob]
+            Ka, Kb = ri(rng, (*sa, 2, 2), dtype=dt), ri(rng, (*sa, mm, nn_), dtype=dt)
+            Xk = ri(rng, (*sb, 2 * nn_, pp), dtype=dt)
+            for which, shp_ in (("op", sa), ("rhs", sb)):
+                def member(model, which=which, shp_=shp_, idx=idx, Ka=Ka, Kb=Kb, Xk=Xk, sa=sa, sb=sb):
+                    r = [int(v) for v in model.split(",")] if model != "-" else []
+                    if len(r) != len(shp_) or any(v >= s_ for v, s_ in zip(r, shp_)):
+                        return False
+                    res = KroneckerProductLinearOperator(Ka.clone(), Kb.clone()) @ Xk.clone()
+                    got = res[tuple(idx)]
+                    ra = r if which == "op" else None
+                    # the other operand's member: torch semantics computed independently
+                    def tr(shape):
+                        k = len(idx) - len(shape)
+                        return [0 if s_ == 1 else i for s_, i in zip(shape, idx[k:])]
+                    ia = r if which == "op" else tr(sa)
+                    ib = r if which == "rhs" else tr(sb)
+                    dense = cat.kron(Ka, Kb)
+                    return torch.equal(got, dense[tuple(ia)] @ Xk[tuple(ib)])
+                out.append((f"C01/corr/broadcast[ra={len(sa)}|rb={len(sb)}]/member-of-{which}", f"brestrict {fs_(shp_)} {fs_(idx)}", ("check", member)))
         # ---- block operators
         k, m = rng.randint(1, 3), rng.randint(1, 3)
         B = ri(rng, (k, m, m), dtype=dt)
@@ -184,7 +263,7 @@ def cases(rng, tier):
         out.append((f"C01/corr/chol[lower|n={n}]/_matmul+to_dense", f"chol {M(Lt)} 0 {M(Xn)}",
                     lambda Lt=Lt, Xn=Xn: M(CholLinearOperator(TriangularLinearOperator(Lt.clone()))._matmul(Xn.clone())) + " # " + M(CholLinearOperator(TriangularLinearOperator(Lt.clone())).to_dense())))
         Ut = Lt.T.contiguous()
-        out.append((f"C01/corr/chol[upper|n={n}]/_matmul+to_dense(model-as-code-is)", f"chol {M(Ut)} 1 {M(Xn)}",
+        out.append((f"C01/corr/chol[upper|n={n}]/_matmul+to_dense", f"chol {M(Ut)} 1 {M(Xn)}",
                     lambda Ut=Ut, Xn=Xn: M(CholLinearOperator(TriangularLinearOperator(Ut.clone(), upper=True), upper=True)._matmul(Xn.clone())) + " # " +
                     M(CholLinearOperator(TriangularLinearOperator(Ut.clone(), upper=True), upper=True).to_dense())))
         kc = rng.randint(-3, 3)
@@ -217,7 +296,9 @@ def part2(chk):
         try:
             with warnings.catch_warnings():
                 warnings.simplefilter("ignore")
-                if isinstance(thunk, tuple):  # toleranced
+                if isinstance(thunk, tuple) and thunk[0] == "check":  # predicate over the model's answer
+                    impl = model if thunk[1](model) else "implementation does not satisfy the model's answer"
+                elif isinstance(thunk, tuple):  # toleranced
                     tensors = thunk[1]()
                     parts = model.split(" # ")
                     ok = len(parts) == len(tensors)
